@@ -824,7 +824,14 @@ private:
 
   static std::int64_t toEpochMs(std::chrono::system_clock::time_point tp)
   {
-    return std::chrono::duration_cast<std::chrono::milliseconds>(tp.time_since_epoch()).count();
+    // The replay only applies expiries it finds plausible (isPlausibleEpochMs:
+    // ms > 0). A deadline at or before the epoch - e.g. a default-constructed
+    // time_point used as "expire now" - is journalled as 1 ms after the epoch,
+    // equally long past, so that it is not ignored (and the key resurrected)
+    // when the store is reopened.
+    const std::int64_t ms =
+      std::chrono::duration_cast<std::chrono::milliseconds>(tp.time_since_epoch()).count();
+    return ms > 0 ? ms : 1;
   }
 
   static std::chrono::system_clock::time_point fromEpochMs(std::int64_t ms)
